@@ -597,6 +597,7 @@ def run(prop, tier, seed):
         # the write of the record fails (injected storage error that persists over retries) for a request AND for its conflicting twin:
         # a lifetime that includes a full disk or a store being closed must not contain both signatures either
         fault_scs = []
+        unfired = []
         if prop in ("C01", "C02"):
             conc0 = concs[0][1]
             def fsc(i, kind, site, e1, e2):
@@ -617,7 +618,9 @@ def run(prop, tier, seed):
             for sc_ in fault_scs:
                 end = [e for e in fby[sc_["id"]] if e["ev"] == "End"]
                 if not (end and end[0]["faults_hit"]):
-                    raise Inconclusive("store-fault scenario %s: the injected error never fired" % sc_["id"])
+                    # (the run is still judged: a change that moves the write elsewhere shows in the other phases; only if nothing
+                    # is found does the missing fault make the whole check inconclusive)
+                    unfired.append(sc_["id"])
                 start = len(lines) + 1
                 project_one(sc_["id"], {}, [], fby[sc_["id"]], lines)
                 index.append((start, len(lines), sc_["id"]))
@@ -678,6 +681,8 @@ def run(prop, tier, seed):
         ok, violated, pos, r = validate(lines, p["trace_inv"], maxi, wd)
         info["states"] += r.distinct
         info["transitions"] += r.generated
+        if ok and unfired:
+            raise Inconclusive("store-fault scenario %s: the injected error never fired" % unfired[0])
         sample_trace = lines[index[0][0] - 1:index[0][0] + 11] if index else []
         selftest = binding_selftest(prop, lines, index, maxi, wd) if ok else {}
         if ok and selftest.get("corrupted_trace_rejected") is False:
